@@ -177,6 +177,8 @@ def run(ch: Checker) -> None:
     ch.rule('C19.2', 'the port file is written after flags.port / flags.ports were overwritten with the bound ports, primary first then the additional ports', 2)
     ch.rule('C19.3', 'every subsystem set up in Proxy.setup is shut down in Proxy.shutdown in the order acceptors, executors, event manager, listeners, port/pid file removal', 5)
     ch.rule('C19.3b', 'pool shutdown reaches every member: ListenerPool.shutdown calls shutdown() on every listener of the pool and empties it; no list is resized while iterated', 3)
+    ch.rule('C19.5', 'FlagParser.initialize: args.ports is every --ports value in the order given, converted with int(): no set / dict.fromkeys / sorted / filter between the '
+                     'command line and the listener pool (0 may be given several times: each asks for one more OS-assigned port)', 1)
     ch.rule('C19.4', 'listeners are created for every (address, port) pair: addresses = {hostname} U hostnames, ports = flags.ports plus flags.port (unless a unix socket is configured)', 1)
 
     lp_setup = prog.own_method('ListenerPool', 'setup')
@@ -428,6 +430,8 @@ def run(ch: Checker) -> None:
     ch.check(sig and jn and all('self.flags.num_workers' in r for r in rng) and len(rng) >= 2, 'C19.3b', wsd, 'workers stop+join',
              'every worker is signalled and joined (loops over num_workers)',
              'ThreadlessPool._shutdown_workers does not signal and join all num_workers workers (calls %s, loops %s)' % (txt, rng))
+    # ---------------- C19.5
+    _ports_flag_check(ch)
 
 
 def _eval_with_unix(e: ast.AST, unix: bool, ce: ConstEval, m: Any) -> Any:
@@ -441,3 +445,45 @@ def _eval_with_unix(e: ast.AST, unix: bool, ce: ConstEval, m: Any) -> Any:
     e2 = ast.fix_missing_locations(T().visit(copy.deepcopy(e)))
     v = ce.try_eval(m, e2, default=None)
     return v if v is not None else norm(e)
+
+
+def _ports_flag_check(ch: Checker) -> None:
+    prog = ch.prog
+    init = prog.method('FlagParser', 'initialize')
+    sites = [st for st in walk_no_nested(init.node) if isinstance(st, ast.Assign) and len(st.targets) == 1 and attr_chain(st.targets[0]) == 'args.ports']
+    if not sites:
+        ch.bad('C19.5', init, 'args.ports', 'FlagParser.initialize no longer stores args.ports')
+        return
+    defs: Dict[str, List[ast.AST]] = {}
+    for st in walk_no_nested(init.node):
+        if isinstance(st, ast.Assign) and len(st.targets) == 1 and isinstance(st.targets[0], ast.Name):
+            defs.setdefault(st.targets[0].id, []).append(st.value)
+        elif isinstance(st, ast.AnnAssign) and isinstance(st.target, ast.Name) and st.value is not None:
+            defs.setdefault(st.target.id, []).append(st.value)
+    LOSSY = ('set', 'frozenset', 'dict.fromkeys', 'sorted', 'reversed', 'OrderedDict.fromkeys', 'collections.OrderedDict.fromkeys', 'filter', 'unique', 'Counter', 'collections.Counter')
+    for st in sites:
+        seen: List[ast.AST] = []
+        todo = [st.value]
+        lossy = None
+        chained = False
+        while todo:
+            e = todo.pop()
+            for n_ in ast.walk(e):
+                if isinstance(n_, ast.Call) and (attr_chain(n_.func) or '') in LOSSY:
+                    lossy = norm(n_.func)
+                if isinstance(n_, (ast.Set, ast.SetComp, ast.DictComp)):
+                    lossy = type(n_).__name__
+                if isinstance(n_, (ast.ListComp, ast.GeneratorExp)) and any(g.ifs for g in n_.generators):
+                    lossy = 'a filtering comprehension'
+                if isinstance(n_, ast.Call) and (attr_chain(n_.func) or '').endswith('chain.from_iterable'):
+                    chained = True
+                if isinstance(n_, ast.Name) and isinstance(n_.ctx, ast.Load) and len(defs.get(n_.id, [])) == 1 and n_.id not in ('args', 'opts', 'ports') and not any(x is defs[n_.id][0] for x in seen):
+                    seen.append(defs[n_.id][0])
+                    todo.append(defs[n_.id][0])
+        if lossy:
+            ch.bad('C19.5', init, 'args.ports', 'the --ports values pass through %s before they reach the listener pool: repeated values (e.g. `--ports 0 0 0`, three OS-assigned ports) are merged or the '
+                                              'given order is lost, so fewer or other endpoints are bound than were configured' % lossy, line=st.lineno)
+        elif chained:
+            ch.ok('C19.5', init, 'args.ports', 'all --ports values, flattened in the order given', line=st.lineno)
+        else:
+            ch.skip('C19.5', init, 'args.ports', 'how args.ports is derived from the --ports values is not a recognised form; not decided')
